@@ -18,3 +18,105 @@ def declare(spec):
             "implies(_i == 0, is_pinf(mindate))",
         ]},
         props=["C02", "C14", "C16"])
+
+
+def declare_loops(spec):
+    from .c_node import INV
+    add(spec, "Simulation.wrap_up_servers",
+        types={"current_time": "time"},
+        requires=["is_fin(current_time)"],
+        modifies=["total_time", "busy_time", "server_utilisation", "$seq[NumList]"], allocates=True,
+        loop_invariants={0: []},
+        props=["C04", "C14", "C16"])
+
+    add(spec, "Simulation.event_and_return_nextnode",
+        types={"next_active_node": "obj:ArrivalNode|Node"},
+        requires=["len(self.active_nodes) > 0"],
+        returns="obj:ArrivalNode|Node", modifies=["*"], allocates="any", raises=[("ValueError", "True")],
+        # SCHED / EVENT_PRE: what the previous update_next_event_date round guarantees to the handler (ASSUMED)
+        call_assumes={
+            "finish_service": ["is_fin(self.next_event_date) or is_pinf(self.next_event_date)",
+                               "is_list(self.next_individual) and len(as_list(self.next_individual, 'Any')) > 0 and "
+                               "forall_in(as_list(self.next_individual, 'Any'), lambda x: finish_cand_ok(self, x))"],
+            "renege": ["is_list(self.next_individual) and len(as_list(self.next_individual, 'Any')) > 0 and "
+                       "forall_in(as_list(self.next_individual, 'Any'), lambda x: renege_cand_ok(self, x))"],
+            "have_event": ["arr_ok(self)", "self.simulation.inter_arrival_times[self.next_node][self.next_class] is not None",
+                           "is_time(self.event_dates_dict[self.next_node][self.next_class]) and (is_fin(self.event_dates_dict[self.next_node][self.next_class]) "
+                           "or is_pinf(self.event_dates_dict[self.next_node][self.next_class]))"],
+        },
+        ensures=[
+            ("C02:the-next-active-node-has-the-earliest-next-event",
+             "result in self.active_nodes and forall_in(self.active_nodes, lambda n: result.next_event_date <= n.next_event_date)"),
+            ("C02:the-clock-is-not-touched-by-an-event", "ref_eq(self.current_time, old(self.current_time))"),
+            ("C14:the-set-of-nodes-is-fixed", "ref_eq(self.active_nodes, old(self.active_nodes)) and S(self.active_nodes) == old(S(self.active_nodes))"),
+        ],
+        loop_invariants={0: ["ref_eq(self.current_time, old(self.current_time))", "ref_eq(self.active_nodes, old(self.active_nodes))",
+                             "S(self.active_nodes) == old(S(self.active_nodes))", "len(self.active_nodes) > 0"]},
+        expect_calls={"find_next_active_node": 1},
+        props=["C02", "C14"])
+
+    add(spec, "Simulation.simulate_until_max_time",
+        types={"max_simulation_time": "time", "progress_bar": "bool"},
+        requires=["progress_bar is False", "len(self.active_nodes) > 0", "is_fin(max_simulation_time)",
+                  "is_fin(self.current_time)"],
+        modifies=["*"], allocates="any", raises=[("ValueError", "True")],
+        # I-IND / SCHED consequence (ASSUMED): after an event no node has an event scheduled before the clock
+        lemma_after={"event_and_return_nextnode": [
+            "forall_in(self.active_nodes, lambda n: n.next_event_date >= self.current_time)",
+            "is_fin(result.next_event_date) or is_pinf(result.next_event_date)"],
+            "find_next_active_node": ["is_fin(result.next_event_date) or is_pinf(result.next_event_date)"]},
+        at_call={"event_and_return_nextnode": [
+            ("C02:every-event-is-executed-exactly-at-its-scheduled-date", "self.current_time == next_active_node.next_event_date"),
+            ("C14:only-events-scheduled-strictly-before-the-horizon-are-executed", "self.current_time < max_simulation_time"),
+            ("C02:the-event-executed-is-the-earliest-scheduled-one",
+             "next_active_node in self.active_nodes and forall_in(self.active_nodes, lambda n: next_active_node.next_event_date <= n.next_event_date)"),
+        ], "wrap_up_servers": [
+            ("C14:no-event-at-or-after-the-horizon-was-executed-and-none-before-it-is-pending",
+             "self.current_time >= max_simulation_time and forall_in(self.active_nodes, lambda n: n.next_event_date >= max_simulation_time)"),
+        ], "timestamp": [
+            ("C02:the-clock-never-goes-back", "next_active_node.next_event_date >= self.current_time"),
+        ]},
+        loop_invariants={0: [
+            "len(self.active_nodes) > 0", "next_active_node in self.active_nodes",
+            "forall_in(self.active_nodes, lambda n: next_active_node.next_event_date <= n.next_event_date)",
+            "self.current_time == next_active_node.next_event_date",
+            "is_fin(self.current_time) or is_pinf(self.current_time)",
+        ]},
+        expect_calls={"wrap_up_servers": 1},
+        props=["C02", "C14", "C16", "C17"])
+
+
+    add(spec, "Simulation.simulate_until_max_customers",
+        types={"max_customers": "int", "progress_bar": "bool", "method": "str"},
+        requires=["progress_bar is False", "len(self.active_nodes) > 0", "is_fin(self.current_time)",
+                  "len(self.nodes) >= 2", INV("cls_is(self.nodes[0], 'ArrivalNode|ExactArrivalNode') and cls_is(self.nodes[len(self.nodes) - 1], 'ExitNode')")],
+        modifies=["*"], allocates="any",
+        raises=[("ValueError", "True")],
+        lemma_after={"event_and_return_nextnode": [
+            "forall_in(self.active_nodes, lambda n: n.next_event_date >= self.current_time)",
+            "is_fin(result.next_event_date)", "len(self.nodes) >= 2 and cls_is(self.nodes[0], 'ArrivalNode|ExactArrivalNode') and cls_is(self.nodes[len(self.nodes) - 1], 'ExitNode')"],
+            "find_next_active_node": ["is_fin(result.next_event_date)"]},
+        at_call={"event_and_return_nextnode": [
+            ("C02:every-event-is-executed-exactly-at-its-scheduled-date", "self.current_time == next_active_node.next_event_date"),
+            ("C14:an-event-is-executed-only-while-the-count-is-below-the-target",
+             "implies(method == 'Complete', self.nodes[len(self.nodes) - 1].number_of_completed_individuals < max_customers) and "
+             "implies(method == 'Finish', self.nodes[len(self.nodes) - 1].number_of_individuals < max_customers) and "
+             "implies(method == 'Arrive', self.nodes[0].number_of_individuals < max_customers) and "
+             "implies(method == 'Accept', self.nodes[0].number_accepted_individuals < max_customers)"),
+        ], "wrap_up_servers": [
+            ("C14:stops-once-the-count-has-reached-the-target",
+             "implies(method == 'Complete', self.nodes[len(self.nodes) - 1].number_of_completed_individuals >= max_customers) and "
+             "implies(method == 'Finish', self.nodes[len(self.nodes) - 1].number_of_individuals >= max_customers) and "
+             "implies(method == 'Arrive', self.nodes[0].number_of_individuals >= max_customers) and "
+             "implies(method == 'Accept', self.nodes[0].number_accepted_individuals >= max_customers)"),
+            ("C14:method-is-one-of-the-four", "method == 'Complete' or method == 'Finish' or method == 'Arrive' or method == 'Accept'"),
+        ], "timestamp": [
+            ("C02:the-clock-never-goes-back", "next_active_node.next_event_date >= self.current_time"),
+        ]},
+        loop_invariants={0: [
+            "len(self.active_nodes) > 0", "next_active_node in self.active_nodes",
+            "self.current_time == next_active_node.next_event_date", "is_fin(self.current_time)", "is_time(previous_time) and is_fin(previous_time)",
+            "len(self.nodes) >= 2 and cls_is(self.nodes[0], 'ArrivalNode|ExactArrivalNode') and cls_is(self.nodes[len(self.nodes) - 1], 'ExitNode')",
+        ]},
+        expect_calls={"wrap_up_servers": 1},
+        props=["C02", "C14"])
